@@ -460,6 +460,69 @@ def rule_P7(ctx) -> None:
         ctx.inconclusive("P7", name, "ancestor directories are not computed from path.parents of every output path", loc)
 
 
+def rule_P13(ctx, rule: str = "P13") -> None:
+    """nested types: the class of Outer.Inner is defined under the name the plugin derives from the flattened descriptor name
+    and referenced under the name it derives from the dotted type name ('.pkg.Outer.Inner').  Both go through the same casing
+    function, which treats '.' as a word boundary - so the flattening must put a word boundary between the enclosing and the
+    nested name as well (it writes '_')"""
+    import re
+    from ..absint import Interp
+    from ..sym import show
+    parser = ctx.repo.mod(M_PARSER)
+    fn = parser.func("traverse")
+    ctx.analysed("traverse")
+    cands = [n for n in ast.walk(fn) if isinstance(n, (ast.FunctionDef, ast.AsyncFunctionDef))]
+    stores = []
+    for f in cands:
+        try:
+            paths = Interp(parser).run(f)
+        except AnalysisError:
+            continue
+        ctx.count(len(paths))
+        for p in paths:
+            for e in p.events:
+                if e.kind == "store" and e.data[0][0] == "a" and e.data[0][2] == "name":
+                    stores.append((e, e.data[0], e.data[1]))
+    name = "traverse:nested-name-keeps-word-boundary"
+    if not stores:
+        ctx.inconclusive(rule, name, "no assignment of a flattened name found", parser.loc(fn))
+        return
+    bad = None
+    ok = 0
+    for e, tgt, v in stores:
+        parts = None
+        if v[0] == "fstr":
+            parts = [("c", x[1]) if x[0] == "c" else ("v", x[1]) for x in v[1]]
+        elif v[0] == "op" and v[1] == "+":
+            parts = [("c", x[1]) if x[0] == "c" else ("v", x) for x in v[2:]]
+        if parts is None:
+            bad = bad or ("unrecognised", show(v), e.line)
+            continue
+        # the old name (tgt) and the prefix are variable parts: between two consecutive variable parts there must be a
+        # constant holding a non-alphanumeric character
+        idx = [i for i, (k, _) in enumerate(parts) if k == "v"]
+        if len(idx) < 2 or not any(x == tgt for k, x in parts if k == "v"):
+            bad = bad or ("unrecognised", show(v), e.line)
+            continue
+        glued = False
+        for a, b in zip(idx, idx[1:]):
+            between = "".join(str(x) for k, x in parts[a + 1:b] if k == "c")
+            if not re.search(r"[^A-Za-z0-9]", between):
+                glued = True
+        if glued:
+            bad = bad or ("glued", show(v), e.line)
+        else:
+            ok += 1
+    if bad and bad[0] == "glued":
+        ctx.refuted(rule, name, bad[1][:80], f"{parser.rel}:{bad[2]}",
+                    f"nested type names are flattened as {bad[1]}: enclosing and nested name are glued together without a word boundary, so the class is defined as e.g. 'Ab' / 'Holderitem' "
+                    "while every reference derives 'AB' / 'HolderItem' from the dotted type name - fields of that type have an unresolvable annotation", "message A { message B {} B b = 1; }")
+    elif bad:
+        ctx.inconclusive(rule, name, f"flattened name not recognised: {bad[1][:80]}", f"{parser.rel}:{bad[2]}")
+    else:
+        ctx.proved(rule, name, parser.loc(fn), f"{ok} stores")
+
+
 def rule_P8(ctx) -> None:
     """is_map and MapEntryCompiler.__post_init__ must recognise the same nested entry type"""
     models = ctx.repo.mod(M_MODELS)
@@ -625,7 +688,7 @@ def rule_P12(ctx) -> None:
 
 
 def run(ctx) -> None:
-    for name, fn in (("P1", template.rule_P1), ("P2", rule_P2), ("P3", rule_P3), ("P4", rule_P4), ("P5", rule_P5), ("P6", rule_P6), ("P7", rule_P7), ("P8", rule_P8), ("Y2iii", template.rule_Y2iii), ("P9", rule_P9), ("P10", rule_P10), ("P11", rule_P11), ("P12", rule_P12)):
+    for name, fn in (("P1", template.rule_P1), ("P2", rule_P2), ("P3", rule_P3), ("P4", rule_P4), ("P5", rule_P5), ("P6", rule_P6), ("P7", rule_P7), ("P8", rule_P8), ("Y2iii", template.rule_Y2iii), ("P9", rule_P9), ("P10", rule_P10), ("P11", rule_P11), ("P12", rule_P12), ("P13", rule_P13)):
         ctx.rules_run.append(name)
         fn(ctx)
     from . import phases
